@@ -443,8 +443,8 @@ func (m *MemoryBackend) Terminate(client *Client) error {
 	m.globalMutex.Lock()
 	defer m.globalMutex.Unlock()
 
-	// get session
-	sess := client.Session().(*memorySession)
+	// get session (missing if the setup failed)
+	sess, _ := client.Session().(*memorySession)
 
 	// release session if available
 	if sess != nil {
@@ -454,8 +454,10 @@ func (m *MemoryBackend) Terminate(client *Client) error {
 	// remove any temporary session
 	delete(m.temporarySessions, client)
 
-	// remove any saved client
-	delete(m.activeClients, client.ID())
+	// remove the saved client, but keep another client that uses the same id
+	if m.activeClients[client.ID()] == client {
+		delete(m.activeClients, client.ID())
+	}
 
 	return nil
 }
